@@ -55,7 +55,9 @@ func vh_C15_Actor_Send() {
 }
 
 func c15Queue() *BufferedChannelQueue[int] {
-	q := NewBufferedChannelQueue[int](1, vfRange("bufmax", 0, 1), 1)
+	bufMax := vfInt("bufmax") // symbolic: any non-negative buffer maximum (the code only compares it with the backlog)
+	vfAssume(bufMax >= 0)
+	q := NewBufferedChannelQueue[int](1, bufMax, 1)
 	if vfChoose("prefilled", 2) == 1 {
 		q.Offer(vfInt("item"))
 	}
